@@ -221,7 +221,9 @@ pub fn normalise_comments(cs: &[String]) -> Vec<String> {
 /// Embed blocks are one opaque atom for `vcommon::lex`; the formatter may
 /// respace `\{ x \}` inside them, so their whitespace is dropped.
 pub fn lex_tokens_normalised(src: &str) -> Vec<String> {
-    let toks: Vec<String> = lex(src, false)
+    // `vcommon::lex` takes every `{{{` for the start of an embed payload; nested concatenations
+    // `{{{a, b}, c}, d}` look the same.  Without the `embed` keyword there is no payload.
+    let toks: Vec<String> = lex(src, !src.contains("embed"))
         .into_iter()
         .filter(|t| !matches!(t.kind, Kind::Ws | Kind::LineComment | Kind::BlockComment))
         .map(|t| {
@@ -245,7 +247,7 @@ pub fn lex_tokens_normalised(src: &str) -> Vec<String> {
 }
 
 pub fn lex_comments_normalised(src: &str) -> Vec<String> {
-    lex(src, false)
+    lex(src, !src.contains("embed"))
         .into_iter()
         .filter(|t| matches!(t.kind, Kind::LineComment | Kind::BlockComment))
         .map(|t| trim_line_ends(&t.text))
